@@ -142,27 +142,10 @@ def make_seg_server(**kw):
     return SegServer(**kw)
 
 
-class Livelock(BaseException):
-    """feed() did not return within its CPU budget (BaseException: the driver's broad `except Exception` handlers
-    must not swallow it)."""
+from vt.world.vworld import Livelock      # noqa: E402  (raised by VConnection.feed)
 
 
-def guarded_feed(conn, data, cpu_seconds=15.0):
-    """conn.feed(data) under a CPU-time budget: waiting made visible.  A read loop that stops consuming its
-    buffer spins for ever; the virtual interval timer (process CPU time, so machine load does not matter)
-    turns that into a Livelock the caller reports.  Main thread only (pool workers are)."""
-    import signal
-
-    def on_alarm(sig, frame):
-        raise Livelock('process_io_buffer still running after %.0f s of CPU time' % cpu_seconds)
-    try:
-        old = signal.signal(signal.SIGVTALRM, on_alarm)
-    except ValueError:           # not the main thread: no guard available
-        conn.feed(data)
-        return
-    signal.setitimer(signal.ITIMER_VIRTUAL, cpu_seconds)
-    try:
-        conn.feed(data)
-    finally:
-        signal.setitimer(signal.ITIMER_VIRTUAL, 0)
-        signal.signal(signal.SIGVTALRM, old)
+def guarded_feed(conn, data, cpu_seconds=None):
+    """conn.feed(data); VConnection.feed itself runs process_io_buffer under a CPU-time budget and raises
+    Livelock when a read loop stops consuming its buffer."""
+    conn.feed(data)
